@@ -38,12 +38,13 @@ def R():
         import onnx_ir as ir
         import onnxruntime as ort
 
-        from harness import c18_fns
+        from harness import c18_fns, c18_fns17, c18_fns18
         from onnxscript import nn
         from onnxscript._internal import builder as B
 
         ort.set_default_logger_severity(4)
         _R.onnx, _R.ir, _R.ort, _R.B, _R.nn, _R.fns = onnx, ir, ort, B, nn, c18_fns
+        _R.fns_by_opset = {17: c18_fns17, 18: c18_fns18, 21: c18_fns}
         _R.loaded = True
     return _R
 
@@ -58,26 +59,47 @@ NPDT = {"f32": np.float32, "i64": np.int64, "b": np.bool_}
 # --------------------------------------------------------------------------- function table
 
 
-def make_functions():
-    """(name, object, numpy implementation, n_in, n_out, attrs) — bodies are read from the real objects."""
+_FN_CACHE: dict = {}
+
+
+def _softmax0(a, axis=0):
+    c = np.stack([a, -a]).astype(np.float32)
+    e = np.exp(c - c.max(axis=axis, keepdims=True))
+    sm = e / e.sum(axis=axis, keepdims=True)
+    return [(sm * c).sum(axis=0).astype(np.float32)]
+
+
+def make_functions(opset=None):
+    """(name, object, numpy implementation, n_in, n_out, attrs) — bodies are read from the real objects.
+
+    attrs: name -> (optional, choices); an optional attribute has a declared default and is omitted half of the time.
+    """
+    opset = opset or OPSET
+    if opset in _FN_CACHE:
+        return _FN_CACHE[opset]
     r = R()
     B, ir = r.B, r.ir
+    fns = r.fns_by_opset[opset]
 
     def bf(name, fn, n):
         return B.build_function(
-            fn, [ir.Value(name=f"a{i}") for i in range(n)], domain="c18", name=name, opset_imports={"": OPSET}
+            fn, [ir.Value(name=f"a{i}") for i in range(n)], domain="c18", name=name, opset_imports={"": opset}
         )
 
     tab = [
         ("negrelu", bf("negrelu", lambda op, a: op.Relu(op.Neg(a)), 1), lambda a: [np.maximum(-a, 0)], 1, 1, {}),
         ("addmul", bf("addmul", lambda op, a, b: [op.Add(a, b), op.Mul(a, b)], 2), lambda a, b: [a + b, a * b], 2, 2, {}),
         ("chain", bf("chain", lambda op, a: op.Abs(op.Tanh(op.Neg(a))), 1), lambda a: [np.abs(np.tanh(-a))], 1, 1, {}),
-        ("s_addrelu", r.fns.s_addrelu, lambda a, b: [np.maximum(a + b, 0)], 2, 1, {}),
-        ("s_two", r.fns.s_two, lambda a: [-a, np.abs(a)], 1, 2, {}),
-        ("s_scale", r.fns.s_scale, lambda a, alpha=1.0: [a * np.float32(alpha)], 1, 1, {"alpha": 1.5}),
+        ("s_addrelu", fns.s_addrelu, lambda a, b: [np.maximum(a + b, 0)], 2, 1, {}),
+        ("s_two", fns.s_two, lambda a: [-a, np.abs(a)], 1, 2, {}),
+        ("s_scale", fns.s_scale, lambda a, alpha=1.0: [a * np.float32(alpha)], 1, 1, {"alpha": (False, [1.5, 2.0, -0.5])}),
         # regression for e7b46e0 / 1ed6700: an output that is one of the inputs; a defaulted attribute
         ("swapneg", bf("swapneg", lambda op, a, b: [b, op.Neg(a)], 2), lambda a, b: [b, -a], 2, 2, {}),
-        ("s_default", r.fns.s_default, lambda a, alpha=2.0: [a * np.float32(alpha)], 1, 1, {"alpha?": 1.5}),
+        ("s_default", fns.s_default, lambda a, alpha=2.0: [a * np.float32(alpha)], 1, 1, {"alpha": (True, [1.5, -0.5, 3.0])}),
+        # falsy declared defaults (0.0, 0) whose operator-schema default differs (LeakyRelu 0.01, Softmax -1)
+        ("s_leaky0", fns.s_leaky0, lambda a, alpha=0.0: [np.where(a >= 0, a, np.float32(alpha) * a).astype(np.float32)],
+         1, 1, {"alpha": (True, [0.5, 0.0, 0.1])}),
+        ("s_softmax0", fns.s_softmax0, _softmax0, 1, 1, {"axis": (True, [0, 1, -1])}),
     ]
 
     def ovl(name, overload, fn, n):
@@ -93,6 +115,7 @@ def make_functions():
         ("mix", ovl("mix", "", lambda op, a, b: op.Sub(a, b), 2), lambda a, b: [a - b], 2, 1, {}),
         ("mix", ovl("mix", "mul", lambda op, a, b: [op.Mul(a, b), op.Max(a, b)], 2), lambda a, b: [a * b, np.maximum(a, b)], 2, 2, {}),
     ]
+    _FN_CACHE[opset] = tab
     return tab
 
 
@@ -211,12 +234,12 @@ def model_line(case) -> str:
 
 
 class RealExec:
-    def __init__(self, fnobjs):
+    def __init__(self, fnobjs, opset=None):
         r = R()
         self.r = r
         self.fnobjs = fnobjs
         self.g = r.ir.Graph(
-            name="main", inputs=[], outputs=[], nodes=[], opset_imports={"": OPSET, "c18": 1, "this": 1}
+            name="main", inputs=[], outputs=[], nodes=[], opset_imports={"": opset or OPSET, "c18": 1, "this": 1}
         )
         self.gb = r.B.GraphBuilder(self.g)
         self.handles: list = []
@@ -235,7 +258,12 @@ class RealExec:
         ir = self.r.ir
         out = {}
         for k, v in (d or {}).items():
-            out[k] = ir.AttrFloat32(k, float(v)) if (isinstance(v, float) and not plain) else v
+            if plain:
+                out[k] = v
+            elif isinstance(v, float):
+                out[k] = ir.AttrFloat32(k, float(v))
+            else:
+                out[k] = ir.AttrInt64(k, int(v))
         return out
 
     def run(self, items, builder):
@@ -331,7 +359,7 @@ class RealExec:
 
 
 def run_real(case):
-    ex = RealExec(case["fnobjs"])
+    ex = RealExec(case["fnobjs"], case.get("opset"))
     try:
         ex.run(case["trace"], ex.gb)
     except Exception as e:  # the builder refused / crashed
@@ -428,9 +456,15 @@ def _reg():
     f["Where"] = lambda a, k: np.where(a[0], a[1], a[2])
     f["Cast"] = lambda a, k: a[0].astype({1: np.float32, 7: np.int64, 9: np.bool_}[k["to"]])
     f["Clip"] = lambda a, k: np.clip(a[0], a[1], a[2])
-    f["Split"] = lambda a, k: tuple(np.split(a[0], k["num_outputs"]))
-    f["ReduceSum"] = lambda a, k: np.sum(a[0], axis=tuple(a[1]), keepdims=True)
-    f["ReduceMax"] = lambda a, k: np.max(a[0], axis=tuple(a[1]), keepdims=True)
+    f["Split"] = lambda a, k: tuple(np.split(a[0], 3))
+
+    def red(fn):
+        return lambda a, k: fn(a[0], axis=tuple(a[1]) if len(a) > 1 else tuple(k["axes"]), keepdims=True)
+
+    f["ReduceSum"] = red(np.sum)
+    f["ReduceMax"] = red(np.max)
+    f["ReduceMin"] = red(np.min)
+    f["ReduceMean"] = lambda a, k: red(np.mean)(a, k).astype(a[0].dtype)
     f["Concat"] = lambda a, k: np.concatenate([a[0], a[1]], axis=0)
     f["Reshape"] = lambda a, k: np.reshape(a[0], tuple(a[1]))
     f["Slice"] = lambda a, k: a[0][int(a[1][0]) : int(a[2][0])]
@@ -577,8 +611,9 @@ SCOPES = ["blk", "layers.0", "enc", "", "h1"]
 
 
 class TraceGen:
-    def __init__(self, rng, fntab, subgraphs="none", stats=None):
+    def __init__(self, rng, fntab, subgraphs="none", stats=None, opset=None):
         self.rng = rng
+        self.opset = opset or OPSET
         self.fntab = fntab
         self.mode = subgraphs  # none | explicit | auto
         self.h = 0
@@ -694,7 +729,11 @@ class TraceGen:
             v = self.pick(lambda v: v[2] == (3,) and v[1] != "b")
             if v is None:
                 return self.gen_op(items, in_sub)
-            self.emit_op(items, "Split", [["r", v[0]]], [(v[1], (1,))] * 3, in_sub, attrs={"num_outputs": 3}, typed=v[3])
+            if self.opset >= 18:
+                self.emit_op(items, "Split", [["r", v[0]]], [(v[1], (1,))] * 3, in_sub, attrs={"num_outputs": 3}, typed=v[3])
+            else:  # before opset 18 there is no num_outputs attribute: the sizes are an input
+                self.emit_op(items, "Split", [["r", v[0]], ["l", [1, 1, 1], "i64"]], [(v[1], (1,))] * 3, in_sub, typed=v[3])
+                self.stats["lit_list"] += 1
             self.stats["multi_output"] += 1
         elif kind == "topk":
             v = self.pick(lambda v: v[1] == "f32" and len(v[2]) == 1 and v[2][0] >= 2)
@@ -707,8 +746,13 @@ class TraceGen:
             v = self.pick(lambda v: v[1] != "b" and len(v[2]) == 1)
             if v is None:
                 return self.gen_op(items, in_sub)
-            self.emit_op(items, rng.choice(["ReduceSum", "ReduceMax"]), [["r", v[0]], ["l", [0], "i64"]], [(v[1], (1,))], in_sub, typed=v[3])
-            self.stats["lit_list"] += 1
+            rop = rng.choice(["ReduceSum", "ReduceMax", "ReduceMin"] + (["ReduceMean"] if v[1] == "f32" else []))
+            if rop == "ReduceSum" or self.opset >= 18:
+                self.emit_op(items, rop, [["r", v[0]], ["l", [0], "i64"]], [(v[1], (1,))], in_sub, typed=v[3])
+                self.stats["lit_list"] += 1
+            else:  # before opset 18 `axes` is an attribute of ReduceMax/Min/Mean
+                self.emit_op(items, rop, [["r", v[0]]], [(v[1], (1,))], in_sub, attrs={"axes": [0]}, typed=v[3])
+                self.stats["reduce_axes_attr"] += 1
         elif kind == "concat":
             a = self.pick(lambda v: len(v[2]) == 1 and v[2][0] <= 3)
             if a is None:
@@ -753,15 +797,13 @@ class TraceGen:
         if any(s is None for s in srcs):
             return self.gen_op(items, in_sub)
         args = [["r", s[0]] for s in srcs]
-        at_ = dict(attrs)
-        if "alpha" in at_:
-            at_["alpha"] = rng.choice([1.5, 2.0, -0.5])
-        if "alpha?" in at_:  # defaulted attribute: omitted half of the time
-            at_.pop("alpha?")
-            if rng.random() < 0.5:
-                at_["alpha"] = rng.choice([1.5, -0.5, 3.0])
-            else:
+        at_ = {}
+        for an, (optional, choices) in attrs.items():
+            if optional and rng.random() < 0.5:
                 self.stats["default_attr_omitted"] += 1
+                self.stats["default_attr_omitted_" + name] += 1
+                continue
+            at_[an] = rng.choice(choices)
         plain = bool(at_) and rng.random() < 0.5  # plain Python attribute value instead of ir.Attr
         self.stats["plain_attr"] += plain
         if inline:
@@ -910,14 +952,21 @@ class TraceGen:
         return items
 
 
-def new_case(rng, fntab, mode, n_items, stats):
-    g = TraceGen(rng, fntab, mode, stats)
+OPSETS = [17, 18, 21]  # ops whose input/attribute signature changed in between: Reduce{Max,Min,Mean}, Split
+
+
+def new_case(rng, mode, n_items, stats):
+    opset = rng.choice(OPSETS)
+    stats[f"opset_{opset}"] += 1
+    fntab = make_functions(opset)
+    g = TraceGen(rng, fntab, mode, stats, opset)
     trace = g.gen_trace(n_items)
-    return wrap_case(trace, fntab, mode)
+    return wrap_case(trace, fntab, mode, opset)
 
 
-def wrap_case(trace, fntab, mode):
+def wrap_case(trace, fntab, mode, opset=None):
     return {
+        "opset": opset or OPSET,
         "mode": mode,
         "trace": trace,
         "fnobjs": [f[1] for f in fntab],
@@ -929,7 +978,7 @@ def wrap_case(trace, fntab, mode):
 
 
 def case_json(case):
-    return {"mode": case["mode"], "trace": case["trace"], "fn_names": case["fn_names"]}
+    return {"mode": case["mode"], "opset": case.get("opset"), "trace": case["trace"], "fn_names": case["fn_names"]}
 
 
 # --------------------------------------------------------------------------- known-finding predicates (builder)
@@ -982,21 +1031,75 @@ def classify_builder_failure(case, dup_vals, dup_nodes) -> str | None:
 # --------------------------------------------------------------------------- builder stream
 
 
+EXECUTED: list = []  # every builder case run in this process, in order (process-level state matters)
+
+
+def case_from_json(cs):
+    return wrap_case(cs["trace"], make_functions(cs.get("opset")), cs.get("mode", "none"), cs.get("opset"))
+
+
+def subreplay(path) -> int:
+    """`python -m harness.c18 subreplay f`: in a fresh process run the history on the real builder, then judge
+    the case with the oracles (no Lean model). Prints FAIL/OK."""
+    import random
+
+    body = json.loads(open(path).read())
+    stats: Counter = Counter()
+    for hcase in body.get("history", []):
+        run_real(case_from_json(hcase))
+    probs = check_builder_cases(None, None, [case_from_json(body["case"])], stats, random.Random(0))
+    probs = [p for p in probs if p[1] == "property"]
+    print("FAIL " + probs[0][2][:300] if probs else "OK")
+    return 0
+
+
+def history_of(case_js, prior, budget=8):
+    """search: does the case fail on its own (fresh process)?  If not, find an earlier case of this run whose
+    execution before it makes it fail (process-level state).  Returns (standalone, history)."""
+    import os
+    import subprocess
+    import tempfile
+
+    def fails(history):
+        with tempfile.NamedTemporaryFile("w", suffix=".json", delete=False) as fh:
+            json.dump({"history": history, "case": case_js}, fh)
+        try:
+            p = subprocess.run(["/venv/bin/python", "-m", "harness.c18", "subreplay", fh.name], capture_output=True,
+                               text=True, timeout=120, cwd=str(core.VERIF), env=dict(os.environ))
+            return "FAIL" in p.stdout
+        except subprocess.TimeoutExpired:
+            return False
+        finally:
+            os.unlink(fh.name)
+
+    if fails([]):
+        return True, []
+    cands = sorted(prior, key=lambda h: (h.get("opset") == case_js.get("opset"), -prior.index(h)))
+    for h in cands[:budget]:
+        if fails([h]):
+            return False, [h]
+    if fails(prior[-20:]):
+        return False, prior[-20:]
+    return False, None
+
+
 def check_builder_cases(run, drv, cases, stats, rng, do_ort=True):
     """returns problems [(case, kind, detail)], kind in tie | property."""
     problems = []
-    outs = drv.ask([model_line(c) for c in cases])
+    outs = drv.ask([model_line(c) for c in cases]) if drv is not None else [None] * len(cases)
     for c, mline in zip(cases, outs):
         stats["builder_cases"] += 1
+        c["seq"] = len(EXECUTED)
+        EXECUTED.append(case_json(c))
         ex, err = run_real(c)
         if err is not None:
             stats["builder_real_error"] += 1
-            if not mline.endswith("## ERR -"):
+            if mline is None or not mline.endswith("## ERR -"):
                 continue  # both refuse
             problems.append((c, "tie", f"real builder raised {err}; model built a graph"))
             continue
         real = ex.show()
-        if real != mline:
+        if mline is not None and real != mline:
             problems.append((c, "tie", first_diff(real, mline)))
         # ---- property oracle on the real serialized model
         try:
@@ -1127,9 +1230,12 @@ def witness_d20d():
 # --------------------------------------------------------------------------- nn stream
 
 
+NN_CTX = {"cond": None, "depth": 0, "maxdepth": 0, "param_depth": 0, "uid": 0}
+
+
 def nn_classes():
     r = R()
-    nn = r.nn
+    nn, ir = r.nn, r.ir
 
     class Gen(nn.Module):
         """forward uses every own parameter and visits every registered child once, in order."""
@@ -1137,9 +1243,37 @@ def nn_classes():
         def forward(self, op, x):
             for p in self._parameters.values():
                 x = op.Add(x, p)
+                NN_CTX["param_depth"] = max(NN_CTX["param_depth"], NN_CTX["depth"])
             for c in self._modules.values():
                 x = visit(c, op, x)
             return x
+
+    class Ctl(Gen):
+        """like Gen, but the children are called inside the `then` body of an If built with
+        builder.subgraph (the `else` body passes x through): nested Ctl modules give nested subgraphs
+        with modules entered in between."""
+
+        def forward(self, op, x):
+            for p in self._parameters.values():
+                x = op.Add(x, p)
+                NN_CTX["param_depth"] = max(NN_CTX["param_depth"], NN_CTX["depth"])
+            NN_CTX["uid"] += 1
+            u = NN_CTX["uid"]
+
+            def then_fn(op2):
+                NN_CTX["depth"] += 1
+                NN_CTX["maxdepth"] = max(NN_CTX["maxdepth"], NN_CTX["depth"])
+                try:
+                    y = x
+                    for c in self._modules.values():
+                        y = visit(c, op2, y)
+                    return op2.Identity(y)
+                finally:
+                    NN_CTX["depth"] -= 1
+
+            tb = op.builder.subgraph(then_fn, [], [ir.Value(name=f"then_out{u}")], name=f"then{u}")
+            eb = op.builder.subgraph(lambda op2: op2.Identity(x), [], [ir.Value(name=f"else_out{u}")], name=f"else{u}")
+            return op.If(NN_CTX["cond"], then_branch=tb, else_branch=eb)
 
     def visit(c, op, x):
         if isinstance(c, nn.ModuleList) and not isinstance(c, nn.Sequential):
@@ -1148,14 +1282,28 @@ def nn_classes():
             return x
         return c(op, x)
 
-    return Gen, visit
+    def ref(m, x, cond, pval):
+        """NumPy meaning of the generic forwards."""
+        if isinstance(m, nn.ModuleList) and not isinstance(m, nn.Sequential):
+            for cc in m:
+                x = ref(cc, x, cond, pval)
+            return x
+        for p in m._parameters.values():
+            x = x + pval(p)
+        if isinstance(m, Ctl) and not cond:
+            return x
+        for c in m._modules.values():
+            x = ref(c, x, cond, pval)
+        return x
+
+    return Gen, Ctl, visit, ref
 
 
-def run_nn_real(prog, in_subgraph=False):
+def run_nn_real(prog, numeric=False):
     """execute a construction program on the real classes; returns dict of observations."""
     r = R()
     nn, ir, B = r.nn, r.ir, r.B
-    Gen, visit = nn_classes()
+    Gen, Ctl, visit, ref = nn_classes()
     stack: list = []
     params: list = []
 
@@ -1171,6 +1319,8 @@ def run_nn_real(prog, in_subgraph=False):
         f = tok.split("|")
         if f[0] == "M":
             stack.append(Gen(None if f[1] == "@" else f[1]))
+        elif f[0] == "MC":
+            stack.append(Ctl(None if f[1] == "@" else f[1]))
         elif f[0] == "p":
             p = nn.Parameter([3], name=None if f[3] == "@" else f[3],
                              data=ir.tensor(np.full([3], len(params) + 1, dtype=np.float32)))
@@ -1204,12 +1354,33 @@ def run_nn_real(prog, in_subgraph=False):
     g = ir.Graph(name="main", inputs=[], outputs=[], nodes=[], opset_imports={"": OPSET})
     gb = B.GraphBuilder(g)
     x = gb.input("x", ir.DataType.FLOAT, [3])
-    obs = {"callable": True}
+    NN_CTX.update(cond=gb.input("c", ir.DataType.BOOL, []), depth=0, maxdepth=0, param_depth=0)
+    obs = {"callable": True, "numeric": None}
     try:
         y = root(gb.op, x)
+        if y is x:  # a tree without parameters: do not rename the graph input
+            y = gb.op.Identity(x)
+        if y.type is None:
+            y.type = ir.TensorType(ir.DataType.FLOAT)
+        if y.shape is None:
+            y.shape = ir.Shape([3])
         gb.add_output(y, "y")
     except NotImplementedError:
         obs["callable"] = False
+    obs["sub_depth"], obs["param_depth"] = NN_CTX["maxdepth"], NN_CTX["param_depth"]
+    if obs["callable"] and numeric:
+        # the serialized model against the NumPy meaning of the generic forwards, both branches
+        xv = np.array([0.5, -1.0, 2.0], dtype=np.float32)
+        try:
+            proto = ir.to_proto(ir.Model(g, ir_version=10))
+            for cond in (True, False):
+                got = run_ort(proto, {"x": xv, "c": np.array(cond)})[0]
+                want = ref(root, xv, cond, lambda p: np.full([3], pid[id(p)] + 1, dtype=np.float32))
+                if got.shape != want.shape or not np.allclose(got, want):
+                    obs["numeric"] = f"cond={cond}: onnxruntime {got.tolist()} vs NumPy {want.tolist()}"
+                    break
+        except Exception as e:
+            obs["numeric"] = "onnxruntime rejects the model: " + str(e)[-160:]
     obs["init"] = list(g.initializers.keys())
     obs["realized"] = {pid[id(p)]: p.name for p in params if getattr(p, "_realized", False)}
     obs["sd"] = list(root.state_dict().keys())
@@ -1245,6 +1416,9 @@ NN_CORPUS = [
     "M|@ p|@|weight|@ M|@ p|@|weight|@ SQ|2 ap|stages",
     # nested lists built before the parent gets its name
     "M|net M|@ p|@|weight|@ ML|1 M|@ p|@|weight|@ M|@ p|@|bias|@ SQ|2 ML|2 c|@|layers",
+    # control modules: If bodies nested two deep with a module entered in between and parameters at depth 2
+    "MC|model p|@|w|@ MC|@ p|@|w|@ M|@ p|@|w|@ c|@|inner M|@ p|@|w|@ c|@|inner2 c|@|block1 "
+    "MC|@ M|@ p|@|w|@ c|@|inner c|@|block2",
     # three levels of ModuleList, innermost appended last
     "M|root ML|0 c|@|a ML|0 ap|a ML|0 ap|a/0 M|@ p|@|scale|@ ap|a/0/0 M|@ p|@|scale|@ ap|a/0/0",
 ]
@@ -1256,8 +1430,8 @@ PATTRS = ["weight", "bias", "scale"]
 class NNGen:
     """random *linear* construction programs (every object is attached at most once)."""
 
-    def __init__(self, rng, explicit: bool, stats):
-        self.rng, self.explicit, self.stats = rng, explicit, stats
+    def __init__(self, rng, explicit: bool, stats, ctl: bool = False):
+        self.rng, self.explicit, self.stats, self.ctl = rng, explicit, stats, ctl
         self.diverging = False  # an explicit name that differs from the key was generated
 
     def params(self, prog, path="@"):
@@ -1278,7 +1452,11 @@ class NNGen:
         rng = self.rng
         kind = kind or rng.choice(["M", "M", "M", "ML", "SQ"] if depth < 4 else ["M"])
         if kind == "M":
-            prog.append(f"M|{name}")
+            if self.ctl and self.rng.random() < 0.45:
+                prog.append(f"MC|{name}")
+                self.stats["kind_control_module"] += 1
+            else:
+                prog.append(f"M|{name}")
             self.stats["kind_module"] += 1
             self.params(prog)
             if depth < 4:
@@ -1381,13 +1559,16 @@ class NNGen:
 
 def check_nn_cases(run, drv, progs, stats):
     problems = []
-    outs = drv.ask(["nn " + " ".join(p["prog"]) for p in progs])
+    # a control module (`MC`) is an ordinary Module for the naming model
+    outs = drv.ask(["nn " + " ".join("M" + t[2:] if t.startswith("MC|") else t for t in p["prog"]) for p in progs])
     for p, mline in zip(progs, outs):
         stats["nn_cases"] += 1
         if mline == "bad-op":
             raise core.Infra("nn program rejected by the model driver: " + " ".join(p["prog"]))
         sec = dict(s.split(" ", 1) if " " in s else (s, "") for s in mline.split(" | "))
-        obs = run_nn_real(p["prog"])
+        obs = run_nn_real(p["prog"], numeric=p.get("ctl", False) or stats["nn_cases"] % 4 == 0)
+        stats[f"nn_subgraph_depth_{obs['sub_depth']}"] += 1
+        stats["nn_param_in_depth2_subgraph"] += obs["param_depth"] >= 2
         m_callable = sec["CALLABLE"] == "1"
         if obs["callable"] != m_callable:
             problems.append((p, "tie", f"callable: impl {obs['callable']} model {m_callable}"))
@@ -1418,6 +1599,10 @@ def check_nn_cases(run, drv, progs, stats):
         stats["nn_params"] += n_params
         if sorted(obs["init"]) != sorted(want) or len(obs["init"]) != n_params or [k for k, _ in obs["np"]] != obs["sd"]:
             problems.append((p, "property", f"initializers {sorted(obs['init'])} vs root.name + state_dict keys {sorted(want)} ({n_params} parameters)"))
+        elif obs["numeric"]:
+            problems.append((p, "property", "module graph computes something else: " + obs["numeric"]))
+        if obs["callable"]:
+            stats["nn_ort_checked"] += p.get("ctl", False) or (stats["nn_cases"] % 4 == 0)
     return problems
 
 
@@ -1432,7 +1617,7 @@ def dedup(l):
 def nn_witnesses():
     r = R()
     nn, ir, B = r.nn, r.ir, r.B
-    Gen, visit = nn_classes()
+    Gen, _Ctl, visit, _ref = nn_classes()
     res = {}
 
     def build(root, *extra):
@@ -1517,7 +1702,9 @@ def main(run: core.Run) -> None:
         cs = body.get("case", {})
         probs = []
         if "trace" in cs:
-            probs = check_builder_cases(run, drv, [wrap_case(cs["trace"], fntab, cs.get("mode", "none"))], stats, rng)
+            for hcase in cs.get("history") or []:  # process-level state: earlier builders of the failing run
+                run_real(case_from_json(hcase))
+            probs = check_builder_cases(run, drv, [case_from_json(cs)], stats, rng)
         elif "prog" in cs:
             probs = check_nn_cases(run, drv, [cs], stats)
         for p in probs:
@@ -1543,7 +1730,7 @@ def main(run: core.Run) -> None:
     for mode, n in plan:
         cases = []
         for _ in range(n):
-            c = new_case(rng, fntab, mode, rng.randint(3, 14), stats)
+            c = new_case(rng, mode, rng.randint(3, 14), stats)
             cases.append(c)
             distinct.add(model_line(c))
         for k in range(0, len(cases), 100):
@@ -1561,7 +1748,12 @@ def main(run: core.Run) -> None:
             prog = g.program()
             progs.append({"prog": prog, "explicit": explicit, "diverging": g.diverging})
             distinct.add(" ".join(prog))
-    progs = [{"prog": p.split(), "explicit": False, "diverging": False} for p in NN_CORPUS] + progs
+    for _ in range(run.size(200, 2000) * scale):
+        g = NNGen(rng, False, stats, ctl=True)
+        prog = g.program()
+        progs.append({"prog": prog, "explicit": False, "diverging": False, "ctl": True})
+        distinct.add(" ".join(prog))
+    progs = [{"prog": p.split(), "explicit": False, "diverging": False, "ctl": "MC|" in p} for p in NN_CORPUS] + progs
     for k in range(0, len(progs), 250):
         all_problems += check_nn_cases(run, drv, progs[k:k + 250], stats)
     for p in progs[:3]:
@@ -1622,12 +1814,19 @@ def main(run: core.Run) -> None:
         stats["known_in_stream_" + k] = v
 
     def jcase(c):
-        return case_json(c) if "trace" in c else {k: v for k, v in c.items() if k in ("prog", "explicit", "diverging", "witness")}
+        return case_json(c) if "trace" in c else {k: v for k, v in c.items() if k in ("prog", "explicit", "diverging", "witness", "ctl")}
 
     if prop_fail:
         prop_fail.sort(key=lambda x: len(json.dumps(jcase(x[0]))))
         c, detail = prop_fail[0]
-        run.violation({**jcase(c), "detail": detail, "others": len(prop_fail) - 1}, "real code violates the property: " + detail[:300])
+        extra = {}
+        if "trace" in c:
+            standalone, hist = history_of(case_json(c), EXECUTED[: c.get("seq", 0)])
+            extra = {"standalone": standalone, "history": hist}
+            if not standalone:
+                detail += (" [fails only after earlier builders in the same process: history of "
+                           f"{len(hist)} trace(s) attached]" if hist else " [history-dependent; no short history found]")
+        run.violation({**jcase(c), **extra, "detail": detail, "others": len(prop_fail) - 1}, "real code violates the property: " + detail[:400])
     elif tie_broken:
         tie_broken.sort(key=lambda x: len(json.dumps(jcase(x[0]))))
         c, detail = tie_broken[0]
@@ -1655,6 +1854,13 @@ def main(run: core.Run) -> None:
     )
     if stats["builder_cases"] and stats["builder_real_error"] > 0.3 * stats["builder_cases"]:
         raise core.Infra("generator degenerated: >30% of traces refused by the builder")
-    for need in ("If", "Loop", "inline", "call", "two_overloads_in_trace", "call_overloaded_name", "inline_passthrough", "default_attr_omitted", "plain_attr", "nested_list_after_naming", "lit_list", "multi_output", "push", "append_after_naming", "slice", "kind_seq", "kind_list"):
+    for need in ("If", "Loop", "inline", "call", "two_overloads_in_trace", "call_overloaded_name", "inline_passthrough", "default_attr_omitted", "plain_attr", "nested_list_after_naming", "nn_param_in_depth2_subgraph", "reduce_axes_attr", "default_attr_omitted_s_leaky0", "default_attr_omitted_s_softmax0", "lit_list", "multi_output", "push", "append_after_naming", "slice", "kind_seq", "kind_list"):
         if not stats[need]:
             raise core.Infra(f"generator never produced construct {need}")
+
+
+if __name__ == "__main__":
+    import sys
+
+    if len(sys.argv) == 3 and sys.argv[1] == "subreplay":
+        sys.exit(subreplay(sys.argv[2]))
